@@ -7751,6 +7751,12 @@ SRCG_UNITS.append(
     ("netaddr/core.py", "pysrc_core_gen.v", "core_", " Model.SrcPreludeSRCE Model.SrcPreludeCmp Model.SrcPreludeG",
      [(None, "num_bits:bit_length", {"int_val": "int"}), (None, "num_bits:fallback", {"int_val": "int"})]))
 FUEL[(None, "num_bits:fallback", 1)] = ("int_val", 1)        # one `>>= 1` per iteration: at most int_val (in fact its bit length) of them
+SRCG_UNITS.append(
+    # C20: SubnetSplitter.__init__ on an IPNetwork argument (read by the base class Fn, as the other methods of that class:
+    # the state `_subnets` in, the new state out; IPNetwork(x) of an IPNetwork is a copy)
+    ("netaddr/contrib/subnet_splitter.py", "pysrc_splitterg_gen.v", "", " Model.SrcPreludeSplitter",
+     [("SubnetSplitter", "__init__", {"base_cidr": "net"})]))
+SRCG_PLAIN_FN = ("pysrc_splitterg_gen.v",)         # SRCG units read by Fn itself
 # the constant keys of a registration record, in the order of the `orec` tuple (= the dict literal the class writes), per class
 SRCG_REC_KEYS = {"OUI": ("idx", "oui", "org", "address", "offset", "size"), "IAB": ("idx", "iab", "org", "address", "offset", "size")}
 SRCG_REC_TYPES = ("int", "str", "str", ("list", "str"), "int", "int")
@@ -8751,7 +8757,7 @@ class FnG(FnE):
         return self.generated(node, None, name, "", [(ty, t[3]) if ty == "obj" else (ty, t) for ty, t in args])
 
 
-FN_CLASS.update({u[1]: FnG for u in SRCG_UNITS})
+FN_CLASS.update({u[1]: FnG for u in SRCG_UNITS if u[1] not in SRCG_PLAIN_FN})
 
 
 # ---- SRCG: netaddr/compat.py.  Every compat name whose reading the translator only justified by "it is imported from netaddr.compat"
